@@ -196,6 +196,71 @@ def register(OPS, drv):
             out.append([L(first), [[L(a), L(b)] for a, b in pairs]])
         return out
 
+    def op_c05_folders(job):
+        """Browse the folders of one directory the way a client does: fetch the listing of job["top"], every folder it
+        advertises, and every item each folder listing advertises — with the NAME the listing showed for the item.
+        job: tree, config, protos, top (latin-1), follow_all: protocols in which every item of a long listing is followed,
+        long: number of items from which a listing counts as long, fractions: which items of a long listing the other
+        protocols follow (first two and last three always).
+        -> pages: {proto, level: top|folder|item, selector, type, parent, name, index, of, request, out, exc, log}"""
+        import os
+        import sys
+        here = os.path.dirname(os.path.abspath(__file__))
+        if here not in sys.path:
+            sys.path.insert(0, here)
+        import gen
+        import pgsite
+        import validators as V
+
+        def fetch(w, proto, sel_bytes):
+            data, tls = gen.request_bytes(proto, sel_bytes.decode("utf-8", "surrogateescape"))
+            r = drv.serve_once(w.config, data, tls=tls)
+            return data, r
+
+        def items_of(proto, out):
+            """-> [(name bytes, selector bytes, advertised type or None)] for the local links of a listing"""
+            try:
+                view = pgsite._view_page(proto, out, drv.SERVER_PORT)
+            except V.Malformed:
+                return []
+            types = [None] * len(view)
+            if proto in ("gopher", "sgopher", "gopherplus", "sgopherplus"):
+                menu = V.parse_gopher_menu(V.validate(proto, out)["body"])
+                types = [m["type"] for m in menu]
+            view = pgsite.canon_targets(view, drv.SERVER_PORT)
+            return [(name, target, typ) for (kind, name, target), typ in zip(view, types) if kind == "link"]
+
+        def page(proto, level, sel, typ, parent, name, index, of, data, r):
+            return {"proto": proto, "level": level, "selector": drv.b2s(sel), "type": typ, "parent": parent,
+                    "name": None if name is None else drv.b2s(name), "index": index, "of": of,
+                    "request": drv.b2s(data), "out": r["out"], "exc": r["exc"], "log": r["log"][-3:]}
+
+        w = drv.World(job)
+        try:
+            pages = []
+            top = drv.s2b(job["top"])
+            for proto in job["protos"]:
+                data, r = fetch(w, proto, top)
+                pages.append(page(proto, "top", top, "1", None, None, None, None, data, r))
+                for fname, fsel, ftyp in items_of(proto, drv.s2b(r["out"])):
+                    data, r = fetch(w, proto, fsel)
+                    pages.append(page(proto, "folder", fsel, ftyp, drv.b2s(top), fname, None, None, data, r))
+                    if ftyp not in ("1", None):
+                        continue
+                    items = items_of(proto, drv.s2b(r["out"]))
+                    n = len(items)
+                    pick = range(n)
+                    if n >= job.get("long", 40) and proto not in job.get("follow_all", []):
+                        pick = sorted(set([0, 1, n - 3, n - 2, n - 1] + [int(f * n) for f in job.get("fractions", [])]))
+                    for i in pick:
+                        name, sel, typ = items[i]
+                        data, r2 = fetch(w, proto, sel)
+                        pages.append(page(proto, "item", sel, typ, drv.b2s(fsel), name, i + 1, n, data, r2))
+            return {"root": w.root, "pages": pages}
+        finally:
+            w.close()
+
+    OPS["c05_folders"] = op_c05_folders
     OPS["k05_route"] = op_k05_route
     OPS["k05_urlparse"] = op_k05_urlparse
     OPS["k05_qs"] = op_k05_qs
